@@ -9,7 +9,7 @@ Import ListNotations.
 
 Definition b0 : bf := bf_of 0 0.
 Definition wb_value : res (Cplx bf) :=
-  cubic_unit_tangent NumB NumTB (b0, b0) (b0, b0) (bf_of (-1) 0, bf_of 1 0) (bf_of (-2) 0, b0) b0.
+  cubic_unit_tangent NumB NumTB false (b0, b0) (b0, b0) (bf_of (-1) 0, bf_of 1 0) (bf_of (-2) 0, b0) b0.
 (* 0x1.6a09e667f3bcdp-1 = 0.7071067811865476 *)
 Definition wb_expected : Cplx bf := (bf_of 6369051672525773 (-53), bf_of (-6369051672525773) (-53)).
 Definition wb_check : bool :=
@@ -27,4 +27,15 @@ Definition wb_inside : Cplx bf :=
 Definition wb_inside_check : bool :=
   bcclose (bf_of 1 (-18)) wb_inside (bf_of (-6369051672525773) (-53), bf_of 6369051672525773 (-53)).
 Lemma witness_B_inside : wb_inside_check = true.
+Proof. vm_compute. reflexivity. Qed.
+
+(* the repaired fallback on the same input: (-0.7071067811865476, +0.7071067811865476) *)
+Definition wb_value_repaired : res (Cplx bf) :=
+  cubic_unit_tangent NumB NumTB true (b0, b0) (b0, b0) (bf_of (-1) 0, bf_of 1 0) (bf_of (-2) 0, b0) b0.
+Definition wb_check_repaired : bool :=
+  match wb_value_repaired with
+  | Val z => bcclose (bf_of 1 (-50)) z (bf_of (-6369051672525773) (-53), bf_of 6369051672525773 (-53))
+  | _ => false
+  end.
+Lemma witness_B_repaired : wb_check_repaired = true.
 Proof. vm_compute. reflexivity. Qed.
